@@ -33,16 +33,20 @@ DefaultMsgs == { M(0, 257, TRUE, "CE", 280, "DW", 4), M(0, 257, FALSE, "CE", 280
                  M(4, 257, TRUE, "CE", 272, "CC", 0), M(16777251, 280, FALSE, "DW", 316, "UL", 0) }
 
 Init == m \in Msgs /\ regs = <<>> /\ nextKey = 1 /\ rereg = 0
-Reg(k, hid) == [t |-> k.t, app |-> k.app, code |-> k.code, req |-> k.req, name |-> k.name, hid |-> hid]
+\* sp = spelling used to register: the catch-all can be registered as Handle("ALL", h) or as
+\* HandleIdx(ALL_CMD_INDEX, h); both name the same key
+Reg(k, hid, sp) == [t |-> k.t, app |-> k.app, code |-> k.code, req |-> k.req, name |-> k.name, hid |-> hid, sp |-> sp]
+Spellings(k) == IF k.t = "all" THEN {"handle", "handleidx"} ELSE {"handle"}
 \* first pass: decide for each key of the neighbourhood, in order, whether to register it
 Register == /\ nextKey <= Len(Keys(m))
-            /\ regs' = Append(regs, Reg(Keys(m)[nextKey], nextKey)) /\ nextKey' = nextKey + 1
+            /\ \E sp \in Spellings(Keys(m)[nextKey]) : regs' = Append(regs, Reg(Keys(m)[nextKey], nextKey, sp))
+            /\ nextKey' = nextKey + 1
             /\ UNCHANGED <<m, rereg>>
 Skip == /\ nextKey <= Len(Keys(m)) /\ nextKey' = nextKey + 1 /\ UNCHANGED <<m, regs, rereg>>
 \* second pass: register an already registered key again, with a new handler
 ReRegister == /\ nextKey > Len(Keys(m)) /\ rereg < MaxRereg
               /\ \E i \in 1..Len(regs) : regs[i].hid < 100 /\ Last(regs, regs[i]) = regs[i].hid
-                    /\ regs' = Append(regs, [regs[i] EXCEPT !.hid = 100 + 10 * rereg + regs[i].hid])
+                    /\ \E sp \in Spellings(regs[i]) : regs' = Append(regs, [regs[i] EXCEPT !.hid = 100 + 10 * rereg + regs[i].hid, !.sp = sp])
               /\ rereg' = rereg + 1 /\ UNCHANGED <<m, nextKey>>
 Next == Register \/ Skip \/ ReRegister
 Spec == Init /\ [][Next]_vars
